@@ -193,21 +193,23 @@ func Copy(src, dst string) error {
 // original.  If the destination file already exists it will be overwritten.
 func Move(src, dst string) error {
 	var err error
-	if err = os.Rename(src, dst+LockExt); err != nil {
-		if _, err = os.Stat(src); err != nil {
-			return err
-		}
-		if err = Copy(src, dst+LockExt); err != nil {
-			return err
-		}
-		if err = os.Remove(src); err != nil {
-			return err
-		}
+	// A rename is atomic: no intermediate name is needed for it, and a crash
+	// cannot leave the file under one
+	if err = os.Rename(src, dst); err == nil {
+		return nil
+	}
+	if _, err = os.Stat(src); err != nil {
+		return err
+	}
+	// Not on the same file system: copy under the lock extension, give the
+	// copy its name, and only then let go of the source
+	if err = Copy(src, dst+LockExt); err != nil {
+		return err
 	}
 	if err = os.Rename(dst+LockExt, dst); err != nil {
 		return err
 	}
-	return nil
+	return os.Remove(src)
 }
 
 // Readdir is a simple wrapper around File.Readdir that accepts a path argument
